@@ -112,6 +112,8 @@ fn terminal_core<P: Par<Item = Tok>>(p: P, scn: &Scenario) -> Value {
             }
         }
         Term::CollectX => Value::Bag(seq(p.collect_x())),
+        // zero-sized output type: every Vec<()> reports capacity usize::MAX and never allocates
+        Term::CollectXUnit => Value::Count(p.map(|t: Tok| drop(t)).collect_x().into_iter().count()),
         Term::Count => Value::Count(p.count()),
         Term::ForEach => {
             p.for_each(mk_each());
